@@ -36,7 +36,7 @@ MC_CONSTS = """  Pkgs <- MCPkgs
 def mc_cfg(maxplan):
     return (f"SPECIFICATION Spec\nCONSTANTS\n  MaxPlan = {maxplan}\n{MC_CONSTS}CONSTRAINT Bound\n"
             "INVARIANT InvReplay\nINVARIANT InvRefcnt\nINVARIANT InvLimiters\nINVARIANT InvRevSum\nINVARIANT InvChoices\n"
-            "PROPERTY RollbackExact\nPROPERTY CutExact\n")
+            "INVARIANT CutIsBacktrack\nPROPERTY RollbackExact\n")
 
 
 def sim_cfg(maxplan, d):
